@@ -81,6 +81,12 @@ type relayFwd struct {
 	mu    sync.Mutex
 	conns map[net.Conn]net.Conn
 	total int64
+	// blackhole: relay connections that silently stop forwarding in both directions and stay open
+	// (a network partition between proxy and bridge: no FIN, no RST; the proxy process stays alive
+	// and keeps answering ICE keep-alives - from the client's side the proxy has frozen)
+	holes    map[net.Conn]*int32
+	holeNext int32 // this many of the next accepted connections are blackholes from the start
+	onAccept atomic.Value // func(): called once, synchronously, when the next relay connection arrives (before a byte is forwarded)
 }
 
 func startRelay(target string) (*relayFwd, error) {
@@ -88,7 +94,7 @@ func startRelay(target string) (*relayFwd, error) {
 	if err != nil {
 		return nil, err
 	}
-	f := &relayFwd{ln: ln, conns: map[net.Conn]net.Conn{}}
+	f := &relayFwd{ln: ln, conns: map[net.Conn]net.Conn{}, holes: map[net.Conn]*int32{}}
 	f.target.Store(target)
 	go func() {
 		for {
@@ -96,21 +102,56 @@ func startRelay(target string) (*relayFwd, error) {
 			if err != nil {
 				return
 			}
+			if cb, _ := f.onAccept.Swap((func())(nil)).(func()); cb != nil {
+				cb()
+			}
 			s, err := net.Dial("tcp", f.target.Load().(string))
 			if err != nil {
 				c.Close()
 				continue
 			}
 			atomic.AddInt64(&f.total, 1)
+			hole := new(int32)
+			if n := atomic.LoadInt32(&f.holeNext); n > 0 && atomic.CompareAndSwapInt32(&f.holeNext, n, n-1) {
+				*hole = 1
+			}
 			f.mu.Lock()
 			f.conns[c] = s
+			f.holes[c] = hole
 			f.mu.Unlock()
 			cp := func(dst, src net.Conn) {
-				io.Copy(dst, src)
+				buf := make([]byte, 32*1024)
+				for {
+					if atomic.LoadInt32(hole) != 0 {
+						// swallow nothing, forward nothing, close nothing: wait until somebody closes the connection
+						time.Sleep(50 * time.Millisecond)
+						f.mu.Lock()
+						_, open := f.conns[c]
+						f.mu.Unlock()
+						if !open {
+							break
+						}
+						continue
+					}
+					src.SetReadDeadline(time.Now().Add(100 * time.Millisecond))
+					n, err := src.Read(buf)
+					if n > 0 && atomic.LoadInt32(hole) == 0 {
+						if _, werr := dst.Write(buf[:n]); werr != nil {
+							break
+						}
+					}
+					if err != nil {
+						if ne, ok := err.(net.Error); ok && ne.Timeout() {
+							continue
+						}
+						break
+					}
+				}
 				dst.Close()
 				src.Close()
 				f.mu.Lock()
 				delete(f.conns, c)
+				delete(f.holes, c)
 				f.mu.Unlock()
 			}
 			go cp(s, c)
@@ -118,6 +159,18 @@ func startRelay(target string) (*relayFwd, error) {
 		}
 	}()
 	return f, nil
+}
+
+// blackholeAll turns every relay connection currently open into a blackhole.
+func (f *relayFwd) blackholeAll() int {
+	f.mu.Lock()
+	defer f.mu.Unlock()
+	n := 0
+	for _, h := range f.holes {
+		atomic.StoreInt32(h, 1)
+		n++
+	}
+	return n
 }
 
 // cutAll closes every relay connection currently open (TCP cut between proxy and server).
@@ -153,6 +206,7 @@ type env struct {
 	broker    *exec.Cmd
 	loseNext  int32 // client poll responses to drop
 	delayNext int64 // ms to delay the next client poll response
+	pmu       sync.Mutex // guards proxies
 	proxies   []*exec.Cmd
 	started   int64
 	// all-binaries mode
@@ -416,7 +470,9 @@ func (e *env) startProxy() *exec.Cmd {
 		return nil
 	}
 	go cmd.Wait()
+	e.pmu.Lock()
 	e.proxies = append(e.proxies, cmd)
+	e.pmu.Unlock()
 	return cmd
 }
 
@@ -432,6 +488,8 @@ func (e *env) brokerURLDirect() string {
 
 func (e *env) alive() []*exec.Cmd {
 	var out []*exec.Cmd
+	e.pmu.Lock()
+	defer e.pmu.Unlock()
 	for _, p := range e.proxies {
 		if p.ProcessState == nil && p.Process != nil && p.Process.Signal(syscall.Signal(0)) == nil {
 			out = append(out, p)
@@ -441,6 +499,8 @@ func (e *env) alive() []*exec.Cmd {
 }
 
 func (e *env) killAllProxies() {
+	e.pmu.Lock()
+	defer e.pmu.Unlock()
 	for _, p := range e.proxies {
 		if p.Process != nil {
 			p.Process.Signal(syscall.SIGCONT)
@@ -455,7 +515,7 @@ func (e *env) killAllProxies() {
 
 type fault struct {
 	AtMs   int    `json:"at_ms"`  // after the stream was opened
-	Kind   string `json:"kind"`   // kill | term | freeze | cutrelay | resetrelay | loseanswer | delayanswer | newproxy
+	Kind   string `json:"kind"`   // kill | term | freeze | cutrelay | resetrelay | blackhole | loseanswer | delayanswer | newproxy
 	Proxy  int    `json:"proxy"`  // index among live proxies (mod)
 	DurMs  int    `json:"dur_ms,omitempty"`
 }
@@ -465,7 +525,7 @@ type sysCase struct {
 	Proxies  int         `json:"proxies"`
 	Max      int         `json:"max"`
 	Faults   []fault     `json:"faults"`
-	PreFault string      `json:"prefault,omitempty"` // loseanswer | delayanswer | "" : applied to the very first rendezvous
+	PreFault string      `json:"prefault,omitempty"` // loseanswer | delayanswer | "" : applied to the very first rendezvous; blackholefirst: the first relay connection of the case never forwards anything
 	AllBin   bool        `json:"allbin,omitempty"`   // the client and the server are the real BINARIES too (SOCKS port, ORPort)
 }
 
@@ -621,6 +681,20 @@ func runSysOnce(_ *testing.T, c sysCase, stall time.Duration) error {
 	case "delayanswer":
 		atomic.StoreInt64(&e.delayNext, 3000)
 	}
+	atomic.StoreInt32(&e.relay.holeNext, 0)
+	e.relay.onAccept.Store((func())(nil))
+	defer e.relay.cutAll(false) // blackholed connections of this case do not outlive it
+	if c.PreFault == "freezefirst" {
+		// the carrying proxy is stopped (SIGSTOP, never continued) at the moment its data channel has
+		// opened and it turns to the relay - before it can pass a single downstream message; a fresh
+		// proxy is started shortly afterwards
+		e.relay.onAccept.Store(func() {
+			for _, p := range e.alive() {
+				p.Process.Signal(syscall.SIGSTOP)
+			}
+			time.AfterFunc(500*time.Millisecond, func() { e.startProxy() })
+		})
+	}
 	var conn io.ReadWriteCloser
 	if c.AllBin {
 		if err := e.startServerBinary(r); err != nil {
@@ -628,6 +702,9 @@ func runSysOnce(_ *testing.T, c sysCase, stall time.Duration) error {
 		}
 		e.relay.target.Store(e.serverAddr)
 		e.relay.cutAll(false)
+		if c.PreFault == "blackholefirst" {
+			atomic.StoreInt32(&e.relay.holeNext, 1)
+		}
 		bc, err := e.dialClientBinary(c.Max)
 		if err != nil {
 			return fmt.Errorf("harness: client binary: %v", err)
@@ -635,6 +712,9 @@ func runSysOnce(_ *testing.T, c sysCase, stall time.Duration) error {
 		conn = bc
 	} else {
 		e.relay.target.Store(e.rigAddr)
+		if c.PreFault == "blackholefirst" {
+			atomic.StoreInt32(&e.relay.holeNext, 1)
+		}
 		tr, err := sf.NewSnowflakeClient(sf.ClientConfig{BrokerURL: e.brokerURL, ICEAddresses: []string{"stun:" + e.stun}, Max: c.Max, KeepLocalAddresses: true})
 		if err != nil {
 			return fmt.Errorf("harness: NewSnowflakeClient: %v", err)
@@ -678,6 +758,8 @@ func runSysOnce(_ *testing.T, c sysCase, stall time.Duration) error {
 				e.relay.cutAll(false)
 			case "resetrelay":
 				e.relay.cutAll(true)
+			case "blackhole":
+				e.relay.blackholeAll()
 			case "loseanswer":
 				atomic.StoreInt32(&e.loseNext, 1)
 			case "delayanswer":
@@ -771,13 +853,13 @@ func TestVerifC01System(t *testing.T) {
 			c.S.UpChunk = []int{rapid.IntRange(100, 70000).Draw(rt, "upchunk")}
 			c.S.DownChunk = []int{rapid.IntRange(100, 70000).Draw(rt, "downchunk")}
 		}
-		c.PreFault = rapid.SampledFrom([]string{"", "", "loseanswer", "delayanswer"}).Draw(rt, "prefault")
+		c.PreFault = rapid.SampledFrom([]string{"", "", "loseanswer", "delayanswer", "blackholefirst", "freezefirst"}).Draw(rt, "prefault")
 		c.AllBin = rapid.Bool().Draw(rt, "allbin")
 		nf := rapid.IntRange(0, 3).Draw(rt, "nfaults")
 		at := 0
 		for i := 0; i < nf; i++ {
 			at += rapid.SampledFrom([]int{0, 50, 300, 1500, 5000}).Draw(rt, "gap")
-			f := fault{AtMs: at, Kind: rapid.SampledFrom([]string{"kill", "kill", "term", "freeze", "cutrelay", "resetrelay", "loseanswer", "delayanswer", "newproxy"}).Draw(rt, "kind"), Proxy: rapid.IntRange(0, 3).Draw(rt, "which")}
+			f := fault{AtMs: at, Kind: rapid.SampledFrom([]string{"kill", "kill", "term", "freeze", "cutrelay", "resetrelay", "blackhole", "loseanswer", "delayanswer", "newproxy"}).Draw(rt, "kind"), Proxy: rapid.IntRange(0, 3).Draw(rt, "which")}
 			if f.Kind == "freeze" {
 				f.DurMs = rapid.SampledFrom([]int{500, 3000, 25000}).Draw(rt, "freeze")
 			}
